@@ -19,6 +19,8 @@ where
 
     loop {
         let did_change = apply_rewrites(egraph, &rws);
+        // the state the rules have seen: the hook may change the e-graph afterwards.
+        let measure = egraph.progress();
 
         match hook(egraph) {
             Ok(_) => (),
@@ -27,6 +29,9 @@ where
                 break;
             }
         }
+
+        // what the hook changed has not been rewritten yet: such a state is not saturated.
+        let did_change = did_change || egraph.progress() != measure;
 
         if !did_change {
             stop_reason = StopReason::Saturated;
